@@ -106,7 +106,7 @@ func main() {
 		fmt.Fprintln(os.Stderr, "govc: load failed:", err)
 		os.Exit(2)
 	}
-	timeout := 60
+	timeout := 90
 	if *tier == "thorough" {
 		timeout = 180
 	}
@@ -341,6 +341,10 @@ func runProperty(l *loaded, prop, tier string, timeout int, work string, verbose
 	// property-specific additional back ends
 	runExtras(l, run, prop, tier)
 	dischargeAll(obls, work, timeout, 14)
+	if tier == "thorough" {
+		agree, silent, conflicts := crossCheck(obls, work, 14)
+		run.Notes = append(run.Notes, fmt.Sprintf("thorough tier cross-check: of the obligations proved by the first solver, %d were confirmed unsat by a second solver (z3 4.8.12 or cvc5 1.0) within 20 s, %d got no definite second answer, %d contradicted", agree, silent, conflicts))
+	}
 	if verbose {
 		for _, r := range run.Funcs {
 			printResult(r, true)
@@ -443,6 +447,9 @@ func writeEvidence(p *PropRun, path string) error {
 	var all []*Obligation
 	var knownObls []string
 	for _, o := range p.all() {
+		if o.Kind == "bounded" {
+			continue // bounded stand-ins are listed separately and never counted as discharged obligations
+		}
 		isKnown := false
 		for _, k := range p.KnownHits {
 			if o.Status != "proved" && baseOblName(o.Name) == k {
